@@ -12,7 +12,12 @@ const ENTRY_BYTES: usize = size_of::<u64>() * 3;
 /// Maximum entries per block. Larger blocks mean a bigger in-memory
 /// working set before spilling, but coarser `max_cut` range granularity
 /// per root-index entry.
+#[cfg(not(aranya_core_verif))]
 const BLOCK_ENTRIES: usize = 256;
+/// Verification builds (`--cfg aranya_core_verif`) use tiny blocks so that small graphs
+/// exercise block spill, LRU eviction and reload.
+#[cfg(aranya_core_verif)]
+const BLOCK_ENTRIES: usize = 2;
 /// Size of one block on disk.
 const BLOCK_BYTES: usize = BLOCK_ENTRIES * ENTRY_BYTES;
 /// Number of in-memory blocks retained via LRU before spilling to disk.
